@@ -259,6 +259,10 @@ impl<T> Mapping<T> {
 		T: Tweenable,
 	{
 		let mut amount = (input - self.input_range.0) / (self.input_range.1 - self.input_range.0);
+		// an empty input range maps an input equal to its bounds to 0/0
+		if amount.is_nan() {
+			amount = 0.0;
+		}
 		amount = amount.clamp(0.0, 1.0);
 		amount = self.easing.apply(amount);
 		T::interpolate(self.output_range.0, self.output_range.1, amount)
